@@ -31,6 +31,9 @@ def extra(ck, tu, X, tier, seed):
     from checks import xext
     xext.add_ext_obligations(ck, 4 if tier == "thorough" else 3)
     ck.replayers["x."] = replay_writer.replay
+    from checks import cast_common
+    cast_common.cast_contract(ck)
+    ck.replayers["py.cast"] = replay_writer.replay
     # reader half of the round trip (the same contracts as C08): candidate files, row extraction, merging, orchestration
     from checks import C08, pyload, reader_common, filelist_common
     mod = pyload.module("digital_rf_hdf5")
